@@ -21,6 +21,8 @@ from .harness import SymWorld, ConcWorld, ContractViolation
 
 VERIF = os.path.dirname(os.path.dirname(os.path.abspath(__file__)))
 
+BOUNDED_SEEDS_QUICK = 12
+BOUNDED_SEEDS_THOROUGH = 60
 CONC_SEEDS_QUICK = 2
 CONC_SEEDS_THOROUGH = 6
 SEARCH_SEEDS = 40
@@ -32,16 +34,18 @@ def _extract_input_factory(W):
     def hook(c, extra, model):
         # prefer a small model
         m = model
-        c.solver.push()
-        try:
-            for e in extra:
-                c.solver.add(e)
-            for n in W.size_terms():
-                c.solver.add(n <= 3)
-            if c.solver.check() == z3.sat:
-                m = c.solver.model()
-        finally:
-            c.solver.pop()
+        for bound in (3, 5, 8):
+            c.solver.push()
+            try:
+                for e in extra:
+                    c.solver.add(e)
+                for n in W.size_terms():
+                    c.solver.add(n <= bound)
+                if c.solver.check() == z3.sat:
+                    m = c.solver.model()
+                    break
+            finally:
+                c.solver.pop()
         return W.concretize(m)
 
     return hook
@@ -64,6 +68,24 @@ def run_job(job):
         "conc_runs": 0,
         "conc_fail": None,
     }
+    if u.mode == "bounded":
+        out["bounded"] = True
+        n = BOUNDED_SEEDS_THOROUGH if tier == "thorough" else BOUNDED_SEEDS_QUICK
+        try:
+            for s in range(n):
+                r = run_concrete(u, sk, seed=seed * 100000 + s)
+                out["conc_runs"] += 1
+                out["bounded_checked"] = out.get("bounded_checked", 0) + r.get("checked", 0)
+                if r["status"] == "fail":
+                    out["conc_fail"] = r
+                    break
+                if r["status"] == "crash":
+                    out["crash"] = r["detail"]
+                    break
+        except Exception:
+            out["crash"] = traceback.format_exc()
+        out["wall_s"] = time.time() - t0
+        return out
     try:
 
         def run(c):
@@ -105,7 +127,7 @@ def run_job(job):
     return out
 
 
-def run_concrete(u, sk, seed=0, sizes=None, values=None, numbers=None):
+def run_concrete(u, sk, seed=0, sizes=None, values=None, numbers=None, positions=None, subsets=None):
     def fill(name, idx):
         if values and name in values:
             d = values[name]
@@ -119,7 +141,7 @@ def run_concrete(u, sk, seed=0, sizes=None, values=None, numbers=None):
             return float(numbers[name])
         return None
 
-    W = ConcWorld(sizes=sizes, seed=seed, fill=fill if (values or numbers) else None, default_size=None)
+    W = ConcWorld(sizes=sizes, seed=seed, fill=fill if (values or numbers) else None, default_size=None, positions=positions, subsets=subsets)
     try:
         u.run(W, sk)
         return {"status": "pass", "checked": W.checked, "inputs": None}
@@ -135,7 +157,7 @@ def replay_refuted(u, sk, ob):
     """Replay the solver's counter-model on the real code; fall back to a directed search."""
     inp = (ob.get("model") or {}).get("input") if isinstance(ob.get("model"), dict) else None
     if inp:
-        r = run_concrete(u, sk, seed=0, sizes=inp.get("sizes"), values=inp.get("values"), numbers=inp.get("numbers"))
+        r = run_concrete(u, sk, seed=0, sizes=inp.get("sizes"), values=inp.get("values"), numbers=inp.get("numbers"), positions=inp.get("positions"), subsets=inp.get("subsets"))
         if r["status"] == "fail":
             return {"how": "solver-model", "result": r}
     for s in range(SEARCH_SEEDS):
@@ -237,6 +259,8 @@ def check_property(prop, tier="quick", seed=0, only_unit=None, jobs=None, verbos
     paths = 0
     conc_runs = 0
     per_unit = {}
+    bounded = {"jobs": 0, "evaluations": 0, "contract_clauses_evaluated": 0, "units": set()}
+    bounded_fail = []
     for res in results:
         u = units.UNITS[res["unit"]]
         paths += res["paths"]
@@ -247,6 +271,19 @@ def check_property(prop, tier="quick", seed=0, only_unit=None, jobs=None, verbos
         pu["paths"] += res["paths"]
         if res["crash"]:
             crashes.append((res["unit"], res["skeleton"], res["crash"]))
+            continue
+        if res.get("bounded"):
+            bounded["jobs"] += 1
+            bounded["evaluations"] += res["conc_runs"]
+            bounded["contract_clauses_evaluated"] += res.get("bounded_checked", 0)
+            bounded["units"].add(u.name)
+            if res.get("conc_fail"):
+                cf = res["conc_fail"]
+                f = match_finding(findings, prop, res["unit"], cf["obligation"], res["skeleton"])
+                if f:
+                    known_hits.append((f, res["unit"], cf["obligation"], res["skeleton"]))
+                else:
+                    bounded_fail.append((res["unit"], res["skeleton"], cf))
             continue
         if u.expect == "refuted":
             vacuity["mustfail_units"] += 1
@@ -304,6 +341,16 @@ def check_property(prop, tier="quick", seed=0, only_unit=None, jobs=None, verbos
     os.makedirs(os.path.join(VERIF, "evidence"), exist_ok=True)
     exit_code = 0
     lines = []
+    seen_b = set()
+    for uname, sk, cf in bounded_fail:
+        if (uname, cf["obligation"]) in seen_b:
+            continue
+        seen_b.add((uname, cf["obligation"]))
+        fname = "".join(ch if ch.isalnum() or ch in "._-" else "_" for ch in f"{prop}_{uname}_{cf['obligation']}")[:150]
+        path = os.path.join(VERIF, "replays", fname + ".json")
+        json.dump({"property": prop, "unit": uname, "skeleton": sk, "obligation": cf["obligation"], "bounded": True, "failing_input": cf, "verifier_output": "bounded run-time contract check failed on the real code"}, open(path, "w"), indent=1)
+        lines.append(f"VIOLATION property={prop} replay={path}")
+        exit_code = 1
     # a concrete failure found while an obligation was undecided is a demonstrated violation
     for uname, sk, why, cf in undecided:
         if cf:
@@ -390,6 +437,14 @@ def check_property(prop, tier="quick", seed=0, only_unit=None, jobs=None, verbos
             "units": per_unit,
             "vacuity": vacuity,
             "cpython_crosscheck_runs": conc_runs,
+            "bounded": {
+                "note": "bounded run-time contract checks of functions outside the verifier's reach (pandas / data-dependent shapes); NOT counted in obligations/discharged",
+                "units": sorted(bounded["units"]),
+                "skeleton_jobs": bounded["jobs"],
+                "evaluations": bounded["evaluations"],
+                "contract_clauses_evaluated": bounded["contract_clauses_evaluated"],
+                "bound": "sizes 1..6 per dimension, seeded pseudo-random entries",
+            },
             "samples": samples[:6],
             "explanation": "obligations are generated on every run by executing the real functions of /repo/flodym on symbolic values (sizes, entries, items symbolic; rank/letter skeleton enumerated) and discharged by z3 (cvc5 on unknown)",
         },
